@@ -27,9 +27,15 @@ let props : (string * prop) list = [
   "C11", { tag = "sess"; check = P_sess.check_C11; cross_header = ""; cross_footer = "";
            nontrivial = (fun f -> if field_opt "tlsobs" f <> None then P_c11.nontrivial f else P_sess.nontrivial f) };
   "C09", sess_prop P_sess.check_C09 P_sess.nontrivial;
+  "C09", { tag = "c09f"; cross_header = ""; cross_footer = "";
+           check = (fun f -> (match Sess.b_of (field1 "why" f) with
+                              | [] -> (Ok_, None)
+                              | w -> (OracleFail ("floats in text format do not round-trip through the client's decoder: " ^
+                                                  String.concat "" (List.map (fun b -> String.make 1 (Char.chr (int_of_byte b))) w)), None)));
+           nontrivial = (fun f -> Some (show_sexp (L f))) };
   "C14", { tag = "c14"; check = P_c14.check; cross_header = P_c14.cross_header; cross_footer = P_c14.cross_footer; nontrivial = P_c14.nontrivial };
   "C03", sess_prop (P_sess.with_budget P_sess.check_C03) P_sess.nontrivial;
-  "C03", { tag = "rd"; check = P_rd.check; cross_header = ""; cross_footer = ""; nontrivial = P_rd.nontrivial };
+  "C03", { tag = "rd"; check = P_rd.check_results; cross_header = ""; cross_footer = ""; nontrivial = P_rd.nontrivial };
   "C03", { tag = "c14"; check = (fun f -> (fst (P_c14.check f), None)); cross_header = ""; cross_footer = ""; nontrivial = P_c14.nontrivial };
   "C18", sess_prop P_sess.check_C18 P_sess.nontrivial;
   "C18", { tag = "rd"; check = P_rd.check; cross_header = ""; cross_footer = ""; nontrivial = P_rd.nontrivial };
@@ -41,8 +47,10 @@ let props : (string * prop) list = [
   "C07", sess_prop P_sess.check_C07 P_sess.nontrivial;
   "C08", sess_prop P_sess.check_C08 P_sess.nontrivial;
   "C10", sess_prop P_sess.check_C10 P_sess.nontrivial;
+  "C10", { tag = "c14"; check = (fun f -> (fst (P_c14.check f), None)); cross_header = ""; cross_footer = ""; nontrivial = P_c14.nontrivial };
   "C10", { tag = "c10huge"; check = P_c04.check_streamed; cross_header = ""; cross_footer = ""; nontrivial = P_c04.nontrivial_other };
   "C13", sess_prop P_sess.check_C13 P_sess.nontrivial;
+  "C13", { tag = "c14"; check = (fun f -> (fst (P_c14.check f), None)); cross_header = ""; cross_footer = ""; nontrivial = P_c14.nontrivial };
   "C19", sess_prop P_sess.check_C19 P_sess.nontrivial;
   "C20", { tag = "c20"; check = P_c20.check; cross_header = P_c20.cross_header;
            cross_footer = P_c20.cross_footer; nontrivial = P_c20.nontrivial };
